@@ -25,15 +25,18 @@
      (C18_reentry_balanced_partial); for a RESTRICTED class of callees - body = straight-line ScalarNil / CopyLast /
      Pop that never pops below its frame base, then Return - the callee provably gets there, so run_function is
      balanced outright (C18_reentry_balanced_straightline).
-   * registration: the table after ANY history of public registrations = the last accepted registration per
-     handle (C18_registry_history: a later registration of a name replaces name and function,
-     C18_registration_replaces); rejected exactly the names starting with "__" (C18_registry_answers,
-     C18_std_names_rejected); the four library natives stay registered as long as no accepted name has the HASH of
-     one of theirs (C18_std_natives_kept) - and that hypothesis is needed: "tuewgsg" has the handle of "__min", is
-     accepted and replaces the library's native (C18_std_native_shadowed_by_collision: the reservation is by name,
-     the table is keyed by the 32-bit FNV-1a hash; replayed on the crate by `cao-verif-harness c18-witness`);
-     Vm::new + the registrations of the harness give exactly the lookup Vm.find_native that call_native uses
-     (C18_menu_registry_is_find_native).
+   * registration (model of vm.rs after d80a79a): the table after ANY history of public registrations = per handle
+     the last registration answered Ok(()) (C18_registry_history); a registration is rejected exactly when the name
+     starts with "__" or its handle is held by an entry registered under another name (C18_registry_answers,
+     C18_std_names_rejected); the name under a handle never changes (C18_registry_name_stable); the same name
+     replaces name and function, another name with the same handle is rejected and changes nothing
+     (C18_registration_replaces); after ANY history on a new VM the four library natives are still registered under
+     their own names with their own functions - no hypothesis on hashes (C18_std_natives_kept).  Finding N-C18-1
+     (the reservation was by name, the table keyed by the 32-bit FNV-1a hash: "tuewgsg" has the handle of "__min",
+     was accepted and replaced the library's native) is REPAIRED by d80a79a: the colliding names are rejected at
+     any point of any history (C18_colliding_name_rejected; `cao-verif-harness c18-witness` shows the rejection on
+     the crate).  Vm::new + the registrations of the harness give exactly the lookup Vm.find_native that
+     call_native uses (C18_menu_registry_is_find_native).
    Witnesses (hypotheses satisfiable, concrete runs): Cao.VmNativeMenuWitness.
    NOT proved, claimed by the correspondence run only: the missing half of reentry_balanced for callees outside that
    class (the body of ANY compiled callee keeps the caller's part of the stack and the frames below its own intact
@@ -339,20 +342,33 @@ Print Assumptions C18_run_function_enters.
 (* Registration                                                        *)
 (* ------------------------------------------------------------------ *)
 
-(* the table of callables after any history of register_native_function calls *)
+(* the table of callables after any history of register_native_function calls: under every handle the name and
+   function of the last registration that was answered Ok(()) and whose name has that handle ([last_ok]), otherwise
+   the entry from before *)
 Theorem C18_registry_history : forall ops r h,
   reg_get (fst (run_public r ops)) h
-  = match last_accepted ops h with
+  = match last_ok ops (snd (run_public r ops)) h with
     | Some (name, f) => Some (mkProc name f)
     | None => reg_get r h
     end.
 Proof. exact registry_history. Qed.
 Print Assumptions C18_registry_history.
 
-Theorem C18_registry_answers : forall ops r,
-  snd (run_public r ops) = map (fun op => if starts_reserved (fst op) then RegRejected else RegOk) ops.
+(* ... and which registrations are answered Ok(()): [register_answer] on the table left by the registrations before -
+   rejected exactly when the name starts with "__" (RegRejected) or its handle is held by an entry registered
+   under ANOTHER name (RegCollides, d80a79a) *)
+Theorem C18_registry_answers : forall pre name f post r,
+  nth (length pre) (snd (run_public r (pre ++ (name, f) :: post))) RegOk
+  = register_answer (fst (run_public r pre)) name.
 Proof. exact registry_answers. Qed.
 Print Assumptions C18_registry_answers.
+
+(* the name under a handle never changes *)
+Theorem C18_registry_name_stable : forall ops r h p,
+  reg_get r h = Some p ->
+  exists f, reg_get (fst (run_public r ops)) h = Some (mkProc (pr_name p) f).
+Proof. exact registry_name_stable. Qed.
+Print Assumptions C18_registry_name_stable.
 
 (* reserved_names: the names of the library's natives cannot be registered, whatever the table holds *)
 Theorem C18_std_names_rejected : forall r n f,
@@ -360,29 +376,38 @@ Theorem C18_std_names_rejected : forall r n f,
 Proof. exact std_names_rejected. Qed.
 Print Assumptions C18_std_names_rejected.
 
+(* after ANY history of public registrations on a new VM each of the four library natives is still registered under
+   its own name with its own function (no hypothesis on hashes any more) *)
 Theorem C18_std_natives_kept : forall ops n,
   In n std_natives ->
-  (forall name f, In (name, f) ops -> starts_reserved name = false ->
-                  handle_of_bytes name <> handle_of_bytes (native_name n)) ->
   reg_get (fst (run_public vm_new_registry ops)) (handle_of_bytes (native_name n))
   = Some (mkProc (native_name n) (StdFn n)).
 Proof. exact std_natives_kept. Qed.
 Print Assumptions C18_std_natives_kept.
 
-(* FINDING: without the hash hypothesis the statement is false - "tuewgsg" is accepted and takes the place of __min *)
-Theorem C18_std_native_shadowed_by_collision : forall f,
-  starts_reserved name_collides_min = false /\
-  handle_of_bytes name_collides_min = handle_of_bytes name_min /\
-  run_public vm_new_registry [(name_collides_min, f)]
-  = (fst (run_public vm_new_registry [(name_collides_min, f)]), [RegOk]) /\
-  reg_get (fst (run_public vm_new_registry [(name_collides_min, f)])) (handle_of_bytes name_min)
-  = Some (mkProc name_collides_min f).
-Proof. exact std_native_shadowed_by_collision. Qed.
-Print Assumptions C18_std_native_shadowed_by_collision.
+(* finding N-C18-1, REPAIRED by d80a79a: "tuewgsg" / "zjyliqo" / "catpprn" / "hcsvhfo" are ordinary names with the
+   handles of __min / __max / __sort / __to_array; at any point of any history on a new VM they are rejected, the
+   table is unchanged and the handle still yields the library native *)
+Theorem C18_colliding_name_rejected : forall ops c n f,
+  In (c, n) collisions ->
+  let r := fst (run_public vm_new_registry ops) in
+  starts_reserved c = false /\
+  handle_of_bytes c = handle_of_bytes (native_name n) /\
+  register_public r c f = (r, RegCollides) /\
+  reg_get r (handle_of_bytes c) = Some (mkProc (native_name n) (StdFn n)).
+Proof. exact colliding_name_rejected. Qed.
+Print Assumptions C18_colliding_name_rejected.
 
+(* a later registration of a non-reserved name: it replaces name and function when its handle is free or held by
+   the same name; when the handle is held by another name the answer is RegCollides and the table is unchanged *)
 Theorem C18_registration_replaces : forall ops r name g,
   starts_reserved name = false ->
-  reg_get (fst (run_public r (ops ++ [(name, g)]))) (handle_of_bytes name) = Some (mkProc name g).
+  let r1 := fst (run_public r ops) in
+  ((forall p, reg_get r1 (handle_of_bytes name) = Some p -> pr_name p = name) ->
+   reg_get (fst (run_public r (ops ++ [(name, g)]))) (handle_of_bytes name) = Some (mkProc name g) /\
+   snd (run_public r (ops ++ [(name, g)])) = snd (run_public r ops) ++ [RegOk]) /\
+  (forall p, reg_get r1 (handle_of_bytes name) = Some p -> pr_name p <> name ->
+   run_public r (ops ++ [(name, g)]) = (r1, snd (run_public r ops) ++ [RegCollides])).
 Proof. exact registration_replaces. Qed.
 Print Assumptions C18_registration_replaces.
 
